@@ -45,13 +45,15 @@ def base_cfg(prob, salt=0, **kw):
 # addition to their own, more deeply explored, alphabets - so that a code path selected by an option nobody thought
 # of for that particular property is still visited.
 #   flags: random (documented as using random directions), noisy (answers depend on the call index), avg (sample
-#          averaging), sets (projections), reg (regulariser; slow), n3 (three variables)
+#          averaging), sets (projections), reg (regulariser; slow), regfast (regulariser, capped subproblem
+#          solver), n3 (three variables)
 # ------------------------------------------------------------------------------------------------------------------
 _BOX2 = {"lo": [-1.5, -0.5], "hi": [0.9, 1.7]}
 _SETS2 = [{"t": "ball", "c": [0.0, 0.5], "r": 1.6}, {"t": "half", "a": [1.0, 1.0], "b": 1.6}]
 _R = {"restarts.use_restarts": True}
 _H = {"restarts.use_restarts": True, "restarts.use_soft_restarts": False}
 _G = {"growing.ndirs_initial": 1}
+_F = {"func_tol.max_iters": 10}
 
 BROAD_MODES = {
     # initialisation
@@ -149,6 +151,15 @@ BROAD_MODES = {
     "l1_functol": ({"reg": {"r": "l1", "lam": 0.5}, "up": {"func_tol.criticality_measure": 1e-2, "func_tol.tr_step": 0.5, "func_tol.max_iters": 50,
                                                           "sfista.max_iters_scaling": 1.0}}, {"reg"}),
     "l1_sets": ({"reg": {"r": "l1", "lam": 0.05}, "sets": [_SETS2[0]]}, {"reg", "sets"}),
+    # regulariser with the subproblem solver capped at 10 iterations: fast enough for ordinary budgets (and the overlays),
+    # so that the regularised code paths meet restarts, scaling, averaging, saved points and every exit
+    "l1_fast": ({"reg": {"r": "l1", "lam": 0.05}, "up": dict(_F)}, {"regfast"}),
+    "l1_fast_bounds_scaling": (dict(_BOX2, scaling=True, reg={"r": "l1", "lam": 0.05}, up=dict(_F)), {"regfast"}),
+    "l2_fast_args_bounds": (dict(_BOX2, reg={"r": "l2", "lam": 0.1, "args": True}, up=dict(_F)), {"regfast"}),
+    "l1_fast_hard": ({"reg": {"r": "l1", "lam": 0.05}, "up": dict(_H, **_F)}, {"regfast"}),
+    "l2_fast_far_x0": ({"reg": {"r": "l2", "lam": 0.1}, "up": dict(_F), "x0": [50.0, -30.0]}, {"regfast"}),
+    "l1_fast_sets": ({"reg": {"r": "l1", "lam": 0.05}, "sets": [_SETS2[0]], "up": dict(_F)}, {"regfast", "sets"}),
+    "l1_fast_n3": ({"reg": {"r": "l1", "lam": 0.05}, "up": dict(_F), "prob": "nzr3"}, {"regfast", "n3"}),
 }
 
 
